@@ -1,6 +1,17 @@
 (* C07 — Re-applying is a fixed point and no-op signalling is exact.  Statements only;
-   proof in Proofs/NoopLaws.v.  The fixed-point clauses (re-apply, extract-and-apply-
-   back) are decided on the implementation's outcomes by the extracted checkers. *)
+   proofs in Proofs/NoopLaws.v and Proofs/{ReconcileTotal,PruneTotal,MergeFix,Reapply}.v.
+   FIRST SENTENCE, general theorem (setting of Proofs/History.v: one version, identity
+   converter, no ignore configuration): from any state satisfying the invariant [state_ok]
+   -- hence from every reachable state -- after a successful apply (forced or not) of a
+   plain configuration, applying the same configuration again by the same manager succeeds
+   without force, returns no object (the live object when the updater is configured to
+   always return its result) and leaves every ownership record as it is
+   (C07_reapply_is_a_fixed_point; C07_reapply_along_every_history states it on the run of a
+   history).  The key lemma: the pruned object of the first apply is a fixed point of
+   merging the configuration (merge_remove_fixed), and prune with the configuration's own
+   field set as previous record removes nothing.  SECOND SENTENCE: C07_noop_signal_exact.
+   The extract-and-apply-back clause is decided on the implementation's outcomes by the
+   extracted checkers (finding F13 lives there). *)
 From Coq Require Import List ZArith String Bool.
 From SMD Require Import Model.Value Model.Order Model.PathSet Model.Updater Proofs.NoopLaws.
 Import ListNotations.
@@ -18,3 +29,110 @@ Theorem C07_noop_signal_exact : forall c live cfg ver mf mgr force o mf',
     (o <> None -> o = Some pruned).
 Proof. exact noop_signal_exact. Qed.
 Print Assumptions C07_noop_signal_exact.
+
+(* ---- re-applying is a fixed point ---- *)
+From Coq Require Import Arith Lia.
+From SMD Require Import Model.PathElem Model.Schema Model.Walk Model.Validate Model.FieldSet Model.Remove Model.Merge
+  Model.Compare Model.Matcher Model.Reconcile Spec.PathsAsSets Spec.RefValid Spec.Resolve Spec.Agree Spec.RefDiff Spec.Examples
+  Proofs.OrderLaws Proofs.PathSetLaws Proofs.SchemaOk Proofs.FieldSetBase Proofs.FieldSetPaths
+  Proofs.FieldSetWf Proofs.FieldSetLaws Proofs.RemoveAbsent Proofs.RemoveWf Proofs.ResolveLaws
+  Proofs.UpdaterLaws Proofs.UpdaterLaws2 Proofs.MergeLaws Proofs.MergeAgree
+  Proofs.RemoveFrame Proofs.EnLaws Proofs.NodeSet Proofs.KeyFields Proofs.VeqbResolve
+  Proofs.SetCheckers Proofs.ApplyEffect Proofs.RefDiffBoth Proofs.RefDiffLaws Proofs.RefDiffPresent
+  Proofs.ApplyInv Proofs.History Proofs.CompareLaws Proofs.PruneShape Proofs.ApplyPruneBase Proofs.RemoveExt
+  Proofs.RemoveBase Proofs.ReconcileTotal Proofs.PruneTotal Proofs.MergeFix Proofs.Reapply.
+Theorem C07_reapply_is_a_fixed_point :
+  forall (c : config) (R : typeref -> Prop) (ver : string) (live : value) 
+           (mf : managed) (mgr : string) (cfg : value) (force : bool) 
+           (o : option tv) (mf' : managed),
+         setting_ok c R ver ->
+         state_ok c ver live mf ->
+         op_ok c ver (HApply mgr cfg force) ->
+         apply_op c (ver, live) (ver, cfg) ver mf mgr force = UOk (o, mf') ->
+         let res := match o with
+                    | Some t => snd t
+                    | None => live
+                    end in
+         exists mf'' : managed,
+           apply_op c (ver, res) (ver, cfg) ver mf' mgr false =
+           UOk (if cfg_return_input_on_noop c then Some (ver, res) else None, mf'') /\
+           same_records mf' mf''.
+Proof. exact reapply_general. Qed.
+Print Assumptions C07_reapply_is_a_fixed_point.
+
+Theorem C07_reapply_returns_no_object :
+  forall (c : config) (R : typeref -> Prop) (ver : string) (live : value) 
+           (mf : managed) (mgr : string) (cfg : value) (force : bool) 
+           (o : option tv) (mf' : managed),
+         setting_ok c R ver ->
+         state_ok c ver live mf ->
+         op_ok c ver (HApply mgr cfg force) ->
+         dup_free (schema_of c ver) (tr_of c ver) live = true ->
+         cfg_return_input_on_noop c = false ->
+         apply_op c (ver, live) (ver, cfg) ver mf mgr force = UOk (o, mf') ->
+         let res := match o with
+                    | Some t => snd t
+                    | None => live
+                    end in
+         exists mf'' : managed,
+           apply_op c (ver, res) (ver, cfg) ver mf' mgr false = UOk (None, mf'') /\
+           same_records mf' mf''.
+Proof. exact reapply_is_a_fixed_point. Qed.
+Print Assumptions C07_reapply_returns_no_object.
+
+Theorem C07_reapply_along_every_history :
+  forall (c : config) (R : typeref -> Prop) (ver : string) (ops : list hop) 
+           (mgr : string) (cfg : value) (force : bool) (o : option tv) 
+           (mf' : managed),
+         setting_ok c R ver ->
+         Forall (op_ok c ver) ops ->
+         op_ok c ver (HApply mgr cfg force) ->
+         apply_op c (ver, fst (run c ver ops)) (ver, cfg) ver (snd (run c ver ops)) mgr force =
+         UOk (o, mf') ->
+         fst (run c ver (ops ++ HApply mgr cfg force :: HApply mgr cfg false :: nil)) =
+         fst (run c ver (ops ++ HApply mgr cfg force :: nil)) /\
+         same_records (snd (run c ver (ops ++ HApply mgr cfg force :: nil)))
+           (snd (run c ver (ops ++ HApply mgr cfg force :: HApply mgr cfg false :: nil))).
+Proof. exact reapply_history_fixed_point. Qed.
+Print Assumptions C07_reapply_along_every_history.
+
+Theorem C07_reapply_needs_the_noop_option_off :
+  setting_ok noop_config FieldSetLaws.ex_R "v1" /\
+         state_ok noop_config "v1" VNull nil /\
+         op_ok noop_config "v1" (HApply "a" noop_cfg false) /\
+         dup_free (schema_of noop_config "v1") (tr_of noop_config "v1") VNull = true /\
+         (exists mf' : managed,
+            apply_op noop_config ("v1", VNull) ("v1", noop_cfg) "v1" nil "a" false =
+            UOk (Some ("v1", noop_cfg), mf') /\
+            apply_op noop_config ("v1", noop_cfg) ("v1", noop_cfg) "v1" mf' "a" false =
+            UOk (Some ("v1", noop_cfg), mf')).
+Proof. exact reapply_needs_noop_option. Qed.
+Print Assumptions C07_reapply_needs_the_noop_option_off.
+
+Theorem C07_reapply_example :
+  fst (run ex_config "v1" rx_ops) = rx_live /\
+         (exists rb : mrec,
+            mf_get "b" (snd (run ex_config "v1" rx_ops)) = Some rb /\
+            ps_empty (mr_set rb) = false) /\
+         (exists mf' : managed,
+            apply_op ex_config ("v1", rx_live) ("v1", rx_cfg) "v1"
+              (snd (run ex_config "v1" rx_ops)) "a" false = UOk (Some ("v1", rx_res), mf') /\
+            present ex_schema ex_rt rx_live
+              (PEField "items" :: PEKey (("name", VStr "y") :: nil) :: nil) = true /\
+            present ex_schema ex_rt rx_res
+              (PEField "items" :: PEKey (("name", VStr "y") :: nil) :: nil) = false /\
+            mf_get "b" mf' = mf_get "b" (snd (run ex_config "v1" rx_ops))) /\
+         (forall (o : option tv) (mf' : managed),
+          apply_op ex_config ("v1", fst (run ex_config "v1" rx_ops)) (
+            "v1", rx_cfg) "v1" (snd (run ex_config "v1" rx_ops)) "a" false = 
+          UOk (o, mf') ->
+          exists mf'' : managed,
+            apply_op ex_config
+              ("v1", match o with
+                     | Some t => snd t
+                     | None => fst (run ex_config "v1" rx_ops)
+                     end) ("v1", rx_cfg) "v1" mf' "a" false = UOk (None, mf'') /\
+            same_records mf' mf'').
+Proof. exact reapply_example. Qed.
+Print Assumptions C07_reapply_example.
+
